@@ -23,8 +23,8 @@ package gonnx
 //@   ensures nograph: m.mp.Graph == nil ==> err == nil
 //@   loop 1 invariant forall name string :: name in $visited ==> (name in $map &&
 //@          (name in m.parameters || (name in inputTensors && shapefits(inputTensors[name], $map[name]))))
-//@   loop 2 invariant len(shapeReceived) == len(shapeExpected) && shapeReceived == shapeof(tensor) &&
-//@          (forall d :: 0 <= d && d < $i ==> (!shapeExpected[d].IsDynamic ==> shapeExpected[d].Size == shapeReceived[d]))
+//@   loop 2 invariant $key in inputTensors && len($range) == rank(inputTensors[$key]) &&
+//@          (forall d :: 0 <= d && d < $i ==> (!$range[d].IsDynamic ==> $range[d].Size == dim(inputTensors[$key], d)))
 
 // ---------------------------------------------------------------------------------------
 // C18: loading
